@@ -511,6 +511,20 @@ pub fn request(t: &mut Tape, pool: &[String], pool_hosts: &[(String, String)]) -
     ReqSpec { url: u, source, rtype }
 }
 
+/// the same rule under another tag (rules identical apart from `$tag=`)
+pub fn tag_twin(t: &mut Tape, rule: &str) -> String {
+    let (pat, opts) = match rule.rfind('$') {
+        Some(i) => (rule[..i].to_string(), rule[i + 1..].to_string()),
+        None => (rule.to_string(), String::new()),
+    };
+    if opts.contains("redirect") || opts.contains("removeparam") || opts.contains("generichide") || opts.contains("ghide") || opts.contains("badfilter") {
+        return rule.to_string();
+    }
+    let mut os: Vec<String> = opts.split(',').filter(|o| !o.is_empty() && !o.starts_with("tag=")).map(|o| o.to_string()).collect();
+    os.push(format!("tag={}", t.choose(TAGS)));
+    format!("{}${}", pat, os.join(","))
+}
+
 /// A complete network case: URL pool -> rules cut from it -> requests from it.
 #[derive(Clone, Debug, Serialize, Deserialize)]
 pub struct NetCase {
@@ -619,6 +633,16 @@ pub fn net_case(t: &mut Tape, cfg: &NetCfg) -> NetCase {
                 if o.is_empty() { pat } else { format!("{}${}", pat, o) }
             }
             3 if cfg.junk_lines => t.choose(JUNK).to_string(),
+            4 if !rules.is_empty() && cfg.opt.allow_tag => {
+                // the same rule under one or two other tags
+                let r = t.choose_ref(&rules).clone();
+                let a = tag_twin(t, &r);
+                if t.chance(1, 2) {
+                    let b = tag_twin(t, &r);
+                    rules.push(b);
+                }
+                a
+            }
             _ => net_rule(t, &pool, &pool_hosts, &cfg.opt),
         };
         rules.push(r);
@@ -942,6 +966,14 @@ pub fn full_case(t: &mut Tape, cfg: &NetCfg, cosmetic_share: usize) -> FullCase 
             // generichide exception for a pool host
             let (h, _) = t.choose_ref(&pool_hosts).clone();
             rules.push(format!("@@||{}^$generichide", h));
+        } else if t.chance(1, 10) && rules.iter().any(|r| !r.contains('#')) && cfg.opt.allow_tag {
+            // the same network rule under two tags
+            let nets: Vec<String> = rules.iter().filter(|r| !r.contains('#')).cloned().collect();
+            let r = t.choose_ref(&nets).clone();
+            let a = tag_twin(t, &r);
+            let b = tag_twin(t, &r);
+            rules.push(a);
+            rules.push(b);
         } else {
             rules.push(net_rule(t, &pool, &pool_hosts, &cfg.opt));
         }
